@@ -91,6 +91,9 @@ def check(run):
     for d in [0, len(sig) - 1, len(sig) + 1, 2**32, 2**63, 2**64 - 1, 2**64 - 144, 2**64 - 145, 2**64 - 143]:
         add("prove_req", req(declared=d))
     add("prove_req", full + b"trailing")
+    # a caller whose output takes nothing / whose reader fails after delivering the request: an error (never a crash, never a
+    # half-written message), and the next ordinary request proves as before
+    seqs.append(setup + [f"rln io w prove_req {hx(full)}", f"rln io r prove_req {hx(full)}", f"rln prove_req {hx(full)}", "rln root", "rln leaves_set"])
     # ---- witness entry points
     x = rand_fr(rng)
 
